@@ -89,7 +89,9 @@ theorem Ty.goodFields_iff {K} {fs : List (String × Ty)} :
 /-
 `Ty.MergeSafe u t`: an inline field dict in a position that `_optimize_union` may hand to
 `merge_field_sets` (a union member, or anything below one — flag `u = true`) has no `DOptional` field.
-`merge_field_sets` is not sound for optional fields of a later set (see `C01.mergeFieldSets_sound_false`).
+Before the repair of generator.py:155 `merge_field_sets` was not sound for optional fields of a later set, and
+the C01 theorems about `optimize_type` needed this restriction; since the repair they do not
+(`C01.optimize_sound`), the predicate is kept for the former `_partial` statements only.
 Everything `detect` builds is `MergeSafe true`; the result of the top-level merge is `MergeSafe false`.
 -/
 mutual
@@ -317,9 +319,9 @@ def ReplacesRanked (reg : StrRegistry) : Prop :=
 
 /-! ## `Fields` as association lists -/
 
-@[simp] theorem Fields.get?_nil {k} : Fields.get? [] k = none := rfl
+@[simp] theorem Fields.get?_nilI {k} : Fields.get? [] k = none := rfl
 
-theorem Fields.get?_cons {k' t fs k} :
+theorem Fields.get?_consI {k' t fs k} :
     Fields.get? ((k', t) :: fs) k = if k' = k then some t else Fields.get? fs k := by
   unfold Fields.get?
   rw [List.find?_cons]
@@ -333,7 +335,7 @@ theorem Fields.mem_of_get? {fs : Fields} {k t} (h : Fields.get? fs k = some t) :
   | nil => simp at h
   | cons f fs ih =>
     obtain ⟨k', t'⟩ := f
-    rw [Fields.get?_cons] at h
+    rw [Fields.get?_consI] at h
     split at h
     · simp_all
     · simp [ih h]
@@ -344,7 +346,7 @@ theorem Fields.get?_of_mem {fs : Fields} {k t} (nd : (fs.map (·.1)).Nodup) (h :
   | nil => simp at h
   | cons f fs ih =>
     obtain ⟨k', t'⟩ := f
-    rw [Fields.get?_cons]
+    rw [Fields.get?_consI]
     simp only [List.map_cons, List.nodup_cons, List.mem_map, not_exists, not_and] at nd
     rcases List.mem_cons.1 h with h | h
     · simp at h; simp [h.1, h.2]
@@ -356,7 +358,7 @@ theorem Fields.get?_isSome_iff {fs : Fields} {k} : (Fields.get? fs k).isSome = t
   | nil => simp
   | cons f fs ih =>
     obtain ⟨k', t'⟩ := f
-    rw [Fields.get?_cons]
+    rw [Fields.get?_consI]
     by_cases h : k' = k
     · simp [h]
     · simp only [h, if_false, ih, List.map_cons, List.mem_cons]
@@ -369,21 +371,21 @@ theorem Fields.get?_isSome_iff {fs : Fields} {k} : (Fields.get? fs k).isSome = t
 theorem Fields.get?_eq_none_iff {fs : Fields} {k} : Fields.get? fs k = none ↔ k ∉ fs.map (·.1) := by
   rw [← Fields.get?_isSome_iff]; cases Fields.get? fs k <;> simp
 
-theorem Fields.has_iff {fs : Fields} {k} : Fields.has fs k = true ↔ k ∈ fs.map (·.1) := by
+theorem Fields.has_iffI {fs : Fields} {k} : Fields.has fs k = true ↔ k ∈ fs.map (·.1) := by
   simp [Fields.has]
 
 theorem Fields.get?_set {fs : Fields} {k v k'} :
     Fields.get? (Fields.set fs k v) k' = if k = k' then some v else Fields.get? fs k' := by
   induction fs with
-  | nil => simp [Fields.set, Fields.get?_cons]
+  | nil => simp [Fields.set, Fields.get?_consI]
   | cons f fs ih =>
     obtain ⟨k0, t0⟩ := f
     by_cases h : k0 = k
     · subst h
-      simp only [Fields.set, beq_self_eq_true, if_true, Fields.get?_cons]
+      simp only [Fields.set, beq_self_eq_true, if_true, Fields.get?_consI]
       by_cases h2 : k0 = k' <;> simp [h2]
     · have hb : (k0 == k) = false := by simpa using h
-      simp only [Fields.set, hb, Bool.false_eq_true, if_false, Fields.get?_cons, ih]
+      simp only [Fields.set, hb, Bool.false_eq_true, if_false, Fields.get?_consI, ih]
       by_cases h2 : k0 = k'
       · subst h2
         have : ¬ k = k0 := fun e => h e.symm
@@ -426,7 +428,7 @@ theorem Fields.get?_map {fs : Fields} {f : String × Ty → String × Ty} (hf : 
     obtain ⟨k0, t0⟩ := x
     have e : f (k0, t0) = (k0, (f (k0, t0)).2) := by
       have := hf (k0, t0); cases h : f (k0, t0); simp_all
-    rw [List.map_cons, e, Fields.get?_cons, Fields.get?_cons]
+    rw [List.map_cons, e, Fields.get?_consI, Fields.get?_consI]
     by_cases h : k0 = k
     · subst h; simp
     · simp [h, ih]
@@ -528,11 +530,11 @@ theorem inh_singleton_union {ov acc g t v} : InhX ov acc g (.union [t]) v ↔ In
   simp [inh_union_iff]
 
 /-- `[x] => x | us => .union us` (the "union of one member is that member" idiom) -/
-def collapse (us : List Ty) : Ty := match us with | [x] => x | us => .union us
+def collapseU (us : List Ty) : Ty := match us with | [x] => x | us => .union us
 
 theorem inh_collapse {ov acc g} {us : List Ty} {v} (h : InhX ov acc g (.union us) v) :
-    InhX ov acc g (collapse us) v := by
-  unfold collapse
+    InhX ov acc g (collapseU us) v := by
+  unfold collapseU
   split
   · exact inh_singleton_union.1 h
   · exact h
